@@ -14,7 +14,7 @@ def run(ctx):
 
     # ---------------------------------------------------------------- R1
     r = ctx.rule("C16-R1", "GUARD", "carriage return / cursor codes are written only under the overwrite-mode flag, "
-                 "which is cleared when the output lacks ANSI support", reference=3)
+                 "which is cleared when the output lacks ANSI support", reference=4)
     flag = "_should_overwrite"
     n_sites = 0
     for name, m in sorted(methods.items()):
